@@ -20,6 +20,8 @@ type cacheFunctions[MetadataT any] struct {
 	getCacheSize  func() int64
 	getCacheLen   func() int
 	getLock       func(key CacheKey) *sync.RWMutex
+	// Returns the current metadata of an entry. Must be called with the key's lock held.
+	peekMetadata func(key CacheKey) (*EntryMetadata[MetadataT], bool)
 }
 
 type cacheJanitor[MetadataT any] struct {
@@ -120,6 +122,13 @@ func (j *cacheJanitor[MetadataT]) cleanExpiredEntries() {
 		locked := lock.TryLock()
 		if !locked {
 			slog.Info("Failed to acquire lock for key", "key", key.Hex)
+			continue
+		}
+
+		// The entry may have been replaced or revalidated since the scan: re-check under the lock
+		if meta, ok := j.cacheFns.peekMetadata(key); !ok || !meta.Expires.Before(time.Now()) {
+			lock.Unlock()
+			slog.Info("Cache entry is no longer expired, keeping it", "key", key.Hex)
 			continue
 		}
 
